@@ -117,6 +117,50 @@ pub enum VariantRules {
 }
 proj_enum!(VariantRules { First { side_length }, Second { edge_count, Mixed_case }, Third { Loud_Name }, Fourth { plain_one }, Fifth { after_rename } });
 
+/// attributes of other tools (path-style and plain) written before, between and after the deserr ones
+#[derive(Deserr, Debug)]
+#[rustfmt::skip]
+#[deserr(rename_all = camelCase)]
+#[allow(dead_code)]
+#[deserr(deny_unknown_fields)]
+pub struct ToolAttrs {
+    #[rustfmt::skip]
+    #[deserr(rename = "FIRST")]
+    first_one: u8,
+    #[deserr(default = 7)]
+    #[rustfmt::skip]
+    second_one: u8,
+    #[allow(unused)]
+    #[rustfmt::skip]
+    /// documented
+    #[deserr(default)]
+    #[deserr(rename = "third")]
+    third_one: Option<bool>,
+    #[rustfmt::skip]
+    fourth_one: String,
+}
+proj_struct!(ToolAttrs { first_one, second_one, third_one, fourth_one });
+
+#[derive(Deserr, Debug)]
+#[deserr(tag = "t")]
+#[rustfmt::skip]
+#[deserr(rename_all = lowercase)]
+pub enum ToolAttrsEnum {
+    #[rustfmt::skip]
+    #[deserr(rename_all = camelCase)]
+    FirstOne {
+        #[rustfmt::skip]
+        #[deserr(default = 3)]
+        side_length: u8,
+    },
+    #[rustfmt::skip]
+    #[deserr(rename = "Second")]
+    SecondOne,
+    #[rustfmt::skip]
+    ThirdOne { plain_one: u8 },
+}
+proj_enum!(ToolAttrsEnum { FirstOne { side_length }, SecondOne, ThirdOne { plain_one } });
+
 /// wider than the insertion-sort threshold of slice sorts, with skipped fields in the middle
 #[derive(Deserr, Debug)]
 #[deserr(deny_unknown_fields)]
@@ -237,6 +281,7 @@ pub struct DefaultsFirst {
 }
 proj_struct!(DefaultsFirst { max_retries, display_name, back_off, owner_id, custom_one, last_one });
 
+#[cfg(not(verif_no_edge))]
 /// non-ASCII identifiers under rename_all (Unicode lower-casing, not ASCII lower-casing)
 #[derive(Deserr, Debug)]
 #[deserr(rename_all = lowercase, deny_unknown_fields)]
@@ -245,8 +290,10 @@ pub struct LowerUnicode {
     ÑAME_x: bool,
     plain: Option<u8>,
 }
+#[cfg(not(verif_no_edge))]
 proj_struct!(LowerUnicode { Été, ÑAME_x, plain });
 
+#[cfg(not(verif_no_edge))]
 /// keys that are not identifier-like: non-ASCII, very long, empty, with spaces / dots / quotes
 #[derive(Deserr, Debug)]
 #[deserr(deny_unknown_fields)]
@@ -266,8 +313,10 @@ pub struct OddKeys {
     #[deserr(rename = "say \"hi\"", default)]
     quoted: Option<u8>,
 }
+#[cfg(not(verif_no_edge))]
 proj_struct!(OddKeys { first, drink, long_one, empty, spaced, dotted, quoted });
 
+#[cfg(not(verif_no_edge))]
 #[derive(Deserr, Debug)]
 pub enum OddNames {
     #[deserr(rename = "café")]
@@ -279,17 +328,18 @@ pub enum OddNames {
     #[deserr(rename = "a_very_long_variant_name_for_the_largest_budget")]
     Long,
 }
+#[cfg(not(verif_no_edge))]
 proj_enum!(OddNames { Coffee, Tea, Green, Long });
 
 /// PascalCase identifiers with digits: camelCase only lowers the first letter
 #[derive(Deserr, Debug)]
 #[deserr(tag = "v", rename_all = camelCase)]
 pub enum DigitVariants {
-    V2Beta { x: u8 },
+    V2Beta { xx: u8 },
     Utf8Lossy,
     Plain7,
 }
-proj_enum!(DigitVariants { V2Beta { x }, Utf8Lossy, Plain7 });
+proj_enum!(DigitVariants { V2Beta { xx }, Utf8Lossy, Plain7 });
 
 #[derive(Deserr, Debug)]
 #[deserr(rename_all = camelCase)]
@@ -300,6 +350,7 @@ pub enum DigitUnit {
 }
 proj_enum!(DigitUnit { V2Beta, Utf8Lossy, Sha256 });
 
+#[cfg(not(verif_no_edge))]
 /// field names that coincide with names the generated code might use for its own locals
 #[derive(Deserr, Debug)]
 #[deserr(deny_unknown_fields)]
@@ -325,14 +376,17 @@ pub struct Hygiene {
     #[deserr(map = vf::inc_u8)]
     res: u8,
 }
+#[cfg(not(verif_no_edge))]
 proj_struct!(Hygiene { state, x, e, v, s, key, value, error, location, map, result, field, tag_value, tag_value_string, deserr_seen, val, res });
 
+#[cfg(not(verif_no_edge))]
 #[derive(Deserr, Debug)]
 #[deserr(tag = "t")]
 pub enum HygieneEnum {
     A { state: u8, x: u8, e: u8, s: u8, v: u8, tag_value: u8, tag_value_string: u8 },
     B { key: u8, value: u8, map: u8, error: u8 },
 }
+#[cfg(not(verif_no_edge))]
 proj_enum!(HygieneEnum { A { state, x, e, s, v, tag_value, tag_value_string }, B { key, value, map, error } });
 
 /// raw identifiers under deny_unknown_fields (the accepted list is built from the same keys)
@@ -345,10 +399,12 @@ pub struct DenyRaw {
 }
 proj_struct!(DenyRaw { r#type, r#impl, plain_one });
 
-/// names with characters that are escapes in Rust source
+#[cfg(not(verif_no_edge))]
+/// names with characters that are escapes in Rust source (every backslash sequence is one that would also
+/// lex as an escape, so a derive that re-reads names as source text changes them instead of failing to build)
 #[derive(Deserr, Debug)]
 pub enum EscapedNames {
-    #[deserr(rename = "back\\slash")]
+    #[deserr(rename = "back\\\\slash\\x41\\u{e9}")]
     Back,
     #[deserr(rename = "\\t")]
     BackslashT,
@@ -356,6 +412,7 @@ pub enum EscapedNames {
     Tab,
     Plain,
 }
+#[cfg(not(verif_no_edge))]
 proj_enum!(EscapedNames { Back, BackslashT, Tab, Plain });
 
 /// container try_from whose function returns the container's own error type
@@ -409,47 +466,47 @@ pub struct Defaults {
     #[deserr(default)]
     d: Option<u8>,
     #[deserr(default = vf::dflt_string())]
-    e: String,
+    ee: String,
     f: bool,
 }
-proj_struct!(Defaults { a, b, c, d, e, f });
+proj_struct!(Defaults { a, b, c, d, ee, f });
 
 #[derive(Deserr, Debug)]
 pub struct SkipFirst {
     #[deserr(skip)]
-    s: u8,
+    ss: u8,
     a: u8,
     b: String,
 }
-proj_struct!(SkipFirst { s, a, b });
+proj_struct!(SkipFirst { ss, a, b });
 
 #[derive(Deserr, Debug)]
 pub struct SkipMiddle {
     a: u8,
     #[deserr(skip)]
-    s: String,
+    ss: String,
     b: String,
 }
-proj_struct!(SkipMiddle { a, s, b });
+proj_struct!(SkipMiddle { a, ss, b });
 
 #[derive(Deserr, Debug)]
 pub struct SkipLast {
     a: u8,
     b: Option<bool>,
     #[deserr(skip)]
-    s: Vec<u8>,
+    ss: Vec<u8>,
 }
-proj_struct!(SkipLast { a, b, s });
+proj_struct!(SkipLast { a, b, ss });
 
 #[derive(Deserr, Debug)]
 pub struct SkipWithDefaultExpr {
     a: u8,
     #[deserr(skip, default = vf::dflt_u8())]
-    s: u8,
+    ss: u8,
     #[deserr(default)]
     z: u8,
 }
-proj_struct!(SkipWithDefaultExpr { a, s, z });
+proj_struct!(SkipWithDefaultExpr { a, ss, z });
 
 // ---------------------------------------------------------------------------------- unknown / missing
 #[derive(Deserr, Debug)]
@@ -503,13 +560,13 @@ pub struct ConvS {
     #[deserr(try_from(&String) = vf::try_ascii_ref -> vf::NotAscii)]
     d: String,
     #[deserr(map = vf::inc_u8)]
-    e: u8,
+    ee: u8,
     #[deserr(default, map = vf::inc_u8)]
     f: u8,
     #[deserr(default, try_from(i64) = vf::try_small -> vf::TooBig)]
     g: i64,
 }
-proj_struct!(ConvS { a, b, c, d, e, f, g });
+proj_struct!(ConvS { a, b, c, d, ee, f, g });
 
 #[derive(Deserr, Debug)]
 #[deserr(where_predicate = __Deserr_E: deserr::MergeWithError<Rec2>)]
@@ -522,9 +579,9 @@ pub struct FieldErr {
     c: u64,
     d: bool,
     #[deserr(error = Rec2)]
-    v: Vec<i8>,
+    vv: Vec<i8>,
 }
-proj_struct!(FieldErr { a, inner, c, d, v });
+proj_struct!(FieldErr { a, inner, c, d, vv });
 
 /// container-level `error =`: the impl is for one concrete error type (no generic parameter is added)
 #[derive(Deserr, Debug)]
@@ -543,10 +600,10 @@ proj_struct!(FixedErr { a, b, inner, c, list });
 #[derive(Deserr, Debug)]
 #[deserr(error = monitor::Rec, tag = "k", validate = vf::val_leaves -> vf::ValErr)]
 pub enum FixedErrEnum {
-    A { x: u8, y: (u8, bool) },
+    A { xx: u8, y: (u8, bool) },
     B,
 }
-proj_enum!(FixedErrEnum { A { x, y }, B });
+proj_enum!(FixedErrEnum { A { xx, y }, B });
 
 #[derive(Deserr, Debug)]
 #[deserr(validate = vf::val_leaves -> vf::ValErr)]
@@ -561,10 +618,10 @@ proj_struct!(Validated { a, b, c });
 #[deserr(tag = "t", validate = vf::val_leaves -> vf::ValErr)]
 pub enum ValidatedEnum {
     A,
-    B { x: u8 },
-    C { x: u8, y: u8 },
+    B { xx: u8 },
+    C { xx: u8, y: u8 },
 }
-proj_enum!(ValidatedEnum { A, B { x }, C { x, y } });
+proj_enum!(ValidatedEnum { A, B { xx }, C { xx, y } });
 
 #[derive(Deserr, Debug)]
 #[deserr(from(String) = cfrom)]
@@ -618,14 +675,14 @@ impl ToProj for CTryFromValidated {
 #[deserr(tag = "type")]
 pub enum TagBasic {
     Unit,
-    Point { x: i16, y: i16 },
+    Point { xx: i16, y: i16 },
     Named {
         name: String,
         #[deserr(default)]
         n: u8,
     },
 }
-proj_enum!(TagBasic { Unit, Point { x, y }, Named { name, n } });
+proj_enum!(TagBasic { Unit, Point { xx, y }, Named { name, n } });
 
 #[derive(Deserr, Debug)]
 #[deserr(tag = "kind", rename_all = lowercase)]
@@ -645,33 +702,33 @@ proj_enum!(TagRenames { First { value_one }, SecondOne { inner_value, other_valu
 #[derive(Deserr, Debug)]
 #[deserr(tag = "t")]
 pub enum TagShared {
-    A { v: u8, w: String },
-    B { v: String, w: Option<bool> },
-    C { v: Vec<u8> },
+    A { vv: u8, w: String },
+    B { vv: String, w: Option<bool> },
+    C { vv: Vec<u8> },
 }
-proj_enum!(TagShared { A { v, w }, B { v, w }, C { v } });
+proj_enum!(TagShared { A { vv, w }, B { vv, w }, C { vv } });
 
 #[derive(Deserr, Debug)]
 #[deserr(tag = "kind")]
 pub enum TagCollide {
     A {
         kind: u8,
-        x: u8,
+        xx: u8,
     },
     B {
         #[deserr(default)]
         kind: u8,
-        x: u8,
+        xx: u8,
     },
     C,
 }
-proj_enum!(TagCollide { A { kind, x }, B { kind, x }, C });
+proj_enum!(TagCollide { A { kind, xx }, B { kind, xx }, C });
 
 #[derive(Deserr, Debug)]
 #[deserr(tag = "t", deny_unknown_fields)]
 pub enum TagDeny {
     A {
-        x: u8,
+        xx: u8,
     },
     B {
         y: Option<u8>,
@@ -680,15 +737,15 @@ pub enum TagDeny {
     },
     U,
 }
-proj_enum!(TagDeny { A { x }, B { y, z }, U });
+proj_enum!(TagDeny { A { xx }, B { y, z }, U });
 
 #[derive(Deserr, Debug)]
 #[deserr(tag = "t", deny_unknown_fields = vf::unknown_uk::<__Deserr_E>)]
 pub enum TagDenyCustom {
-    A { x: u8 },
+    A { xx: u8 },
     B,
 }
-proj_enum!(TagDenyCustom { A { x }, B });
+proj_enum!(TagDenyCustom { A { xx }, B });
 
 #[derive(Deserr, Debug)]
 #[deserr(tag = "t")]
@@ -743,17 +800,17 @@ proj_enum!(UnitLower { FirstChoice, SECOND, Third });
 pub struct Node {
     next: Option<Box<Node>>,
     kids: Vec<Node>,
-    v: Option<u8>,
+    vv: Option<u8>,
 }
-proj_struct!(Node { next, kids, v });
+proj_struct!(Node { next, kids, vv });
 
 #[derive(Deserr, Debug)]
 #[deserr(tag = "t")]
 pub enum Tree {
-    Leaf { v: u8 },
+    Leaf { vv: u8 },
     Fork { l: Box<Tree>, r: Box<Tree> },
 }
-proj_enum!(Tree { Leaf { v }, Fork { l, r } });
+proj_enum!(Tree { Leaf { vv }, Fork { l, r } });
 
 #[derive(Deserr, Debug)]
 pub struct GenericNp<A> {
@@ -775,9 +832,9 @@ proj_struct!(GenericWhere<T> { doggo, catto });
 pub struct Leaf {
     n: u8,
     #[deserr(default)]
-    s: String,
+    ss: String,
 }
-proj_struct!(Leaf { n, s });
+proj_struct!(Leaf { n, ss });
 
 #[derive(Deserr, Debug)]
 pub struct Mid {
@@ -797,9 +854,9 @@ proj_struct!(Outer { inner, map });
 pub struct JsonHolder {
     doc: serde_json::Value,
     n: u8,
-    e: UnitE,
+    ee: UnitE,
 }
-proj_struct!(JsonHolder { doc, n, e });
+proj_struct!(JsonHolder { doc, n, ee });
 
 /// One struct that touches most error kinds at several depths (used by C14 and the stress runs).
 #[derive(Deserr, Debug)]
@@ -853,6 +910,27 @@ pub fn defs() -> Defs {
             f("last_name", Ty::Str).key("LAST"),
             f("age_in_years", u(8)).key("ageInYears"),
             f("x2_value", opt(u(8))).key("x2Value"),
+        ],
+    )));
+    d.add(st(StructDef {
+        deny: Deny::Default,
+        ..sdef(
+            "ToolAttrs",
+            vec![
+                f("first_one", u(8)).key("FIRST"),
+                f("second_one", u(8)).key("secondOne").default(pu(7)),
+                f("third_one", opt(Ty::Bool)).key("third").default(Proj::None),
+                f("fourth_one", Ty::Str).key("fourthOne"),
+            ],
+        )
+    }));
+    d.add(Def::Enum(edef(
+        "ToolAttrsEnum",
+        "t",
+        vec![
+            vd("FirstOne", "firstone", Some(vec![f("side_length", u(8)).key("sideLength").default(pu(3))])),
+            vd("SecondOne", "Second", None),
+            vd("ThirdOne", "thirdone", Some(vec![f("plain_one", u(8))])),
         ],
     )));
     d.add(st(sdef("Lower", vec![f("userName", Ty::Str).key("username"), f("ID", u(8)).key("id"), f("other", Ty::Bool).key("KeepCase")])));
@@ -914,7 +992,7 @@ pub fn defs() -> Defs {
         )
     }));
     d.add(Def::UnitEnum(udef("OddNames", &[("Coffee", "café"), ("Tea", "thé"), ("Green", "日本茶"), ("Long", "a_very_long_variant_name_for_the_largest_budget")])));
-    d.add(Def::Enum(edef("DigitVariants", "v", vec![vd("V2Beta", "v2Beta", Some(vec![f("x", u(8))])), vd("Utf8Lossy", "utf8Lossy", None), vd("Plain7", "plain7", None)])));
+    d.add(Def::Enum(edef("DigitVariants", "v", vec![vd("V2Beta", "v2Beta", Some(vec![f("xx", u(8))])), vd("Utf8Lossy", "utf8Lossy", None), vd("Plain7", "plain7", None)])));
     d.add(Def::UnitEnum(udef("DigitUnit", &[("V2Beta", "v2Beta"), ("Utf8Lossy", "utf8Lossy"), ("Sha256", "sha256")])));
     d.add(st(StructDef {
         deny: Deny::Default,
@@ -929,7 +1007,7 @@ pub fn defs() -> Defs {
         ],
     )));
     d.add(st(StructDef { deny: Deny::Default, ..sdef("DenyRaw", vec![f("type", u(8)), f("impl", Ty::Bool), f("plain_one", opt(u(8))).key("plainOne")]) }));
-    d.add(Def::UnitEnum(udef("EscapedNames", &[("Back", "back\\slash"), ("BackslashT", "\\t"), ("Tab", "real\ttab"), ("Plain", "Plain")])));
+    d.add(Def::UnitEnum(udef("EscapedNames", &[("Back", "back\\\\slash\\x41\\u{e9}"), ("BackslashT", "\\t"), ("Tab", "real\ttab"), ("Plain", "Plain")])));
     d.add(Def::Conv(ConvDef { name: "CTrySame".into(), inter: Ty::Str, conv: Conv::TryFrom("try_same_err".into()), validate: None }));
     d.add(st(sdef("PortInner", vec![f("port", Ty::Str).try_from("try_port")])));
     d.add(st(sdef("PortS", vec![f("port", Ty::Str).try_from("try_port"), f("name", Ty::Str), f("backups", vec(named("PortInner"))).default(Proj::Seq(vec![]))])));
@@ -961,14 +1039,14 @@ pub fn defs() -> Defs {
             f("b", u(8)).default(pu(42)),
             f("c", opt(u(8))),
             f("d", opt(u(8))).default(Proj::None),
-            f("e", Ty::Str).default(Proj::Str("dflt".into())),
+            f("ee", Ty::Str).default(Proj::Str("dflt".into())),
             f("f", Ty::Bool),
         ],
     )));
-    d.add(st(sdef("SkipFirst", vec![f("s", u(8)).skip(pu(0)), f("a", u(8)), f("b", Ty::Str)])));
-    d.add(st(sdef("SkipMiddle", vec![f("a", u(8)), f("s", Ty::Str).skip(Proj::Str(String::new())), f("b", Ty::Str)])));
-    d.add(st(sdef("SkipLast", vec![f("a", u(8)), f("b", opt(Ty::Bool)), f("s", vec(u(8))).skip(Proj::Seq(vec![]))])));
-    d.add(st(sdef("SkipWithDefaultExpr", vec![f("a", u(8)), f("s", u(8)).skip(pu(42)), f("z", u(8)).default(pu(0))])));
+    d.add(st(sdef("SkipFirst", vec![f("ss", u(8)).skip(pu(0)), f("a", u(8)), f("b", Ty::Str)])));
+    d.add(st(sdef("SkipMiddle", vec![f("a", u(8)), f("ss", Ty::Str).skip(Proj::Str(String::new())), f("b", Ty::Str)])));
+    d.add(st(sdef("SkipLast", vec![f("a", u(8)), f("b", opt(Ty::Bool)), f("ss", vec(u(8))).skip(Proj::Seq(vec![]))])));
+    d.add(st(sdef("SkipWithDefaultExpr", vec![f("a", u(8)), f("ss", u(8)).skip(pu(42)), f("z", u(8)).default(pu(0))])));
     d.add(st(StructDef { deny: Deny::Default, ..sdef("DenyS", vec![f("alpha", u(8)), f("beta", opt(Ty::Str)), f("gamma", Ty::Bool).key("GAMMA")]) }));
     d.add(st(StructDef { deny: Deny::Custom("unknown_unexp".into()), ..sdef("DenyCustom", vec![f("word", Ty::Str), f("count", u(8)).default(pu(0))]) }));
     d.add(st(StructDef { deny: Deny::Default, ..sdef("DenySkip", vec![f("a", u(8)), f("hidden", u(8)).skip(pu(0)), f("b", Ty::Bool)]) }));
@@ -980,7 +1058,7 @@ pub fn defs() -> Defs {
             f("b", Ty::Str).from("len_of_ref"),
             f("c", u(64)).try_from("try_even"),
             f("d", Ty::Str).try_from("try_ascii_ref"),
-            f("e", u(8)).map("inc_u8"),
+            f("ee", u(8)).map("inc_u8"),
             f("f", u(8)).default(pu(0)).map("inc_u8"),
             f("g", i(64)).default(Proj::Int(0)).try_from("try_small"),
         ],
@@ -992,7 +1070,7 @@ pub fn defs() -> Defs {
             f("inner", named("Plain")).err2(),
             f("c", u(64)).try_from("try_even").err2(),
             f("d", Ty::Bool),
-            f("v", vec(i(8))).err2(),
+            f("vv", vec(i(8))).err2(),
         ],
     )));
     d.add(st(StructDef {
@@ -1001,12 +1079,12 @@ pub fn defs() -> Defs {
     }));
     d.add(Def::Enum(EnumDef {
         validate: Some("val_leaves".into()),
-        ..edef("FixedErrEnum", "k", vec![vd("A", "A", Some(vec![f("x", u(8)), f("y", tup(vec![u(8), Ty::Bool]))])), vd("B", "B", None)])
+        ..edef("FixedErrEnum", "k", vec![vd("A", "A", Some(vec![f("xx", u(8)), f("y", tup(vec![u(8), Ty::Bool]))])), vd("B", "B", None)])
     }));
     d.add(st(StructDef { validate: Some("val_leaves".into()), ..sdef("Validated", vec![f("a", u(8)), f("b", opt(u(8))), f("c", vec(u(8)))]) }));
     d.add(Def::Enum(EnumDef {
         validate: Some("val_leaves".into()),
-        ..edef("ValidatedEnum", "t", vec![vd("A", "A", None), vd("B", "B", Some(vec![f("x", u(8))])), vd("C", "C", Some(vec![f("x", u(8)), f("y", u(8))]))])
+        ..edef("ValidatedEnum", "t", vec![vd("A", "A", None), vd("B", "B", Some(vec![f("xx", u(8))])), vd("C", "C", Some(vec![f("xx", u(8)), f("y", u(8))]))])
     }));
     d.add(Def::Conv(ConvDef { name: "CFrom".into(), inter: Ty::Str, conv: Conv::From("str_to_wrap".into()), validate: None }));
     d.add(Def::Conv(ConvDef { name: "CTryFrom".into(), inter: Ty::Str, conv: Conv::TryFrom("try_nonempty".into()), validate: None }));
@@ -1021,7 +1099,7 @@ pub fn defs() -> Defs {
         "type",
         vec![
             vd("Unit", "Unit", None),
-            vd("Point", "Point", Some(vec![f("x", i(16)), f("y", i(16))])),
+            vd("Point", "Point", Some(vec![f("xx", i(16)), f("y", i(16))])),
             vd("Named", "Named", Some(vec![f("name", Ty::Str), f("n", u(8)).default(pu(0))])),
         ],
     )));
@@ -1038,17 +1116,17 @@ pub fn defs() -> Defs {
         "TagShared",
         "t",
         vec![
-            vd("A", "A", Some(vec![f("v", u(8)), f("w", Ty::Str)])),
-            vd("B", "B", Some(vec![f("v", Ty::Str), f("w", opt(Ty::Bool))])),
-            vd("C", "C", Some(vec![f("v", vec(u(8)))])),
+            vd("A", "A", Some(vec![f("vv", u(8)), f("w", Ty::Str)])),
+            vd("B", "B", Some(vec![f("vv", Ty::Str), f("w", opt(Ty::Bool))])),
+            vd("C", "C", Some(vec![f("vv", vec(u(8)))])),
         ],
     )));
     d.add(Def::Enum(edef(
         "TagCollide",
         "kind",
         vec![
-            vd("A", "A", Some(vec![f("kind", u(8)), f("x", u(8))])),
-            vd("B", "B", Some(vec![f("kind", u(8)).default(pu(0)), f("x", u(8))])),
+            vd("A", "A", Some(vec![f("kind", u(8)), f("xx", u(8))])),
+            vd("B", "B", Some(vec![f("kind", u(8)).default(pu(0)), f("xx", u(8))])),
             vd("C", "C", None),
         ],
     )));
@@ -1057,30 +1135,30 @@ pub fn defs() -> Defs {
         ..edef(
             "TagDeny",
             "t",
-            vec![vd("A", "A", Some(vec![f("x", u(8))])), vd("B", "B", Some(vec![f("y", opt(u(8))), f("z", u(8)).skip(pu(0))])), vd("U", "U", None)],
+            vec![vd("A", "A", Some(vec![f("xx", u(8))])), vd("B", "B", Some(vec![f("y", opt(u(8))), f("z", u(8)).skip(pu(0))])), vd("U", "U", None)],
         )
     }));
     d.add(Def::Enum(EnumDef {
         deny: Deny::Custom("unknown_uk".into()),
-        ..edef("TagDenyCustom", "t", vec![vd("A", "A", Some(vec![f("x", u(8))])), vd("B", "B", None)])
+        ..edef("TagDenyCustom", "t", vec![vd("A", "A", Some(vec![f("xx", u(8))])), vd("B", "B", None)])
     }));
     d.add(Def::Enum(edef("TagUnitOnly", "t", vec![vd("A", "A", None), vd("B", "B", None), vd("C", "sea", None)])));
     d.add(Def::UnitEnum(udef("UnitE", &[("Alpha", "Alpha"), ("Beta", "Beta"), ("Gamma", "Gamma")])));
     d.add(Def::UnitEnum(udef("UnitRenamed", &[("A", "one"), ("B", "B"), ("C", "trois")])));
     d.add(Def::UnitEnum(udef("UnitCamel", &[("FirstChoice", "firstChoice"), ("SecondChoice", "secondChoice"), ("Third", "third")])));
     d.add(Def::UnitEnum(udef("UnitLower", &[("FirstChoice", "firstchoice"), ("SECOND", "second"), ("Third", "Third")])));
-    d.add(st(sdef("Node", vec![f("next", opt(bx(named("Node")))), f("kids", vec(named("Node"))), f("v", opt(u(8)))])));
+    d.add(st(sdef("Node", vec![f("next", opt(bx(named("Node")))), f("kids", vec(named("Node"))), f("vv", opt(u(8)))])));
     d.add(Def::Enum(edef(
         "Tree",
         "t",
-        vec![vd("Leaf", "Leaf", Some(vec![f("v", u(8))])), vd("Fork", "Fork", Some(vec![f("l", bx(named("Tree"))), f("r", bx(named("Tree")))]))],
+        vec![vd("Leaf", "Leaf", Some(vec![f("vv", u(8))])), vd("Fork", "Fork", Some(vec![f("l", bx(named("Tree"))), f("r", bx(named("Tree")))]))],
     )));
     d.add(st(sdef("GenericNp", vec![f("a", vec(i(16))), f("b", u(8))])));
     d.add(st(sdef("GenericWhere", vec![f("doggo", Ty::Str), f("catto", opt(u(8)))])));
-    d.add(st(sdef("Leaf", vec![f("n", u(8)), f("s", Ty::Str).default(Proj::Str(String::new()))])));
+    d.add(st(sdef("Leaf", vec![f("n", u(8)), f("ss", Ty::Str).default(Proj::Str(String::new()))])));
     d.add(st(sdef("Mid", vec![f("leaf", tup(vec![named("Leaf"), opt(named("Leaf"))])), f("arr", arr(named("Leaf"), 2))])));
     d.add(st(sdef("Outer", vec![f("inner", vec(named("Mid"))), f("map", map(KeyTy::Str, named("Mid")))])));
-    d.add(st(sdef("JsonHolder", vec![f("doc", Ty::Json), f("n", u(8)), f("e", named("UnitE"))])));
+    d.add(st(sdef("JsonHolder", vec![f("doc", Ty::Json), f("n", u(8)), f("ee", named("UnitE"))])));
     d.add(st(StructDef {
         deny: Deny::Default,
         ..sdef(
@@ -1196,14 +1274,20 @@ pub fn registry() -> Registry {
     r.all::<VariantBoth>("VariantBoth", named("VariantBoth"), &["derive", "enum", "rename"]);
     r.all::<SkipThenAttrs>("SkipThenAttrs", named("SkipThenAttrs"), &["derive", "skip", "conv", "rename", "default"]);
     r.all::<DefaultsFirst>("DefaultsFirst", named("DefaultsFirst"), &["derive", "default", "rename", "custom-fn"]);
+    #[cfg(not(verif_no_edge))]
     r.all::<LowerUnicode>("LowerUnicode", named("LowerUnicode"), &["derive", "rename", "deny"]);
+    #[cfg(not(verif_no_edge))]
     r.all::<OddKeys>("OddKeys", named("OddKeys"), &["derive", "rename", "deny", "default"]);
+    #[cfg(not(verif_no_edge))]
     r.all::<OddNames>("OddNames", named("OddNames"), &["derive", "unit-enum", "rename"]);
     r.all::<DigitVariants>("DigitVariants", named("DigitVariants"), &["derive", "enum", "rename"]);
     r.all::<DigitUnit>("DigitUnit", named("DigitUnit"), &["derive", "unit-enum", "rename"]);
+    #[cfg(not(verif_no_edge))]
     r.all::<Hygiene>("Hygiene", named("Hygiene"), &["derive", "deny", "conv", "hygiene"]);
+    #[cfg(not(verif_no_edge))]
     r.all::<HygieneEnum>("HygieneEnum", named("HygieneEnum"), &["derive", "enum", "hygiene"]);
     r.all::<DenyRaw>("DenyRaw", named("DenyRaw"), &["derive", "deny", "rename", "raw-ident"]);
+    #[cfg(not(verif_no_edge))]
     r.all::<EscapedNames>("EscapedNames", named("EscapedNames"), &["derive", "unit-enum", "rename"]);
     r.all::<CTrySame>("CTrySame", named("CTrySame"), &["derive", "conv"]);
     r.all::<PortS>("PortS", named("PortS"), &["derive", "conv", "nested"]);
@@ -1215,6 +1299,8 @@ pub fn registry() -> Registry {
     r.all::<LowerRaw>("LowerRaw", named("LowerRaw"), &["derive", "rename", "raw-ident"]);
     r.all::<CamelRaw>("CamelRaw", named("CamelRaw"), &["derive", "rename", "raw-ident"]);
     r.all::<MissingRenamed>("MissingRenamed", named("MissingRenamed"), &["derive", "rename", "custom-fn"]);
+    r.all::<ToolAttrs>("ToolAttrs", named("ToolAttrs"), &["derive", "rename", "deny", "default", "foreign-attrs"]);
+    r.all::<ToolAttrsEnum>("ToolAttrsEnum", named("ToolAttrsEnum"), &["derive", "enum", "rename", "default", "foreign-attrs"]);
     r.all::<VariantRules>("VariantRules", named("VariantRules"), &["derive", "enum", "rename"]);
     r.all::<Defaults>("Defaults", named("Defaults"), &["derive", "default"]);
     r.all::<SkipFirst>("SkipFirst", named("SkipFirst"), &["derive", "skip"]);
